@@ -236,6 +236,10 @@ class Sandbox:
                                  self.exception, self.report.submission, **meta)
         self._context.append(context)
 
+        if self._was_abandoned():
+            # A thread that ran out of time has no business starting executions (and patches)
+            self._context.pop()
+            raise SystemExit
         # Patch in dangerous built-ins
         # Override builtins and mock stuff out
         self._start_mocking(context)
@@ -256,7 +260,10 @@ class Sandbox:
         except SystemExit as system_exit:
             _verif_sync('student_exit_handler')
             if self._was_abandoned():
-                return self
+                # Keep unwinding: this may be an execution started from inside the one that ran
+                # out of time (an instructor helper calling student code), and returning would
+                # let the outer student code carry on
+                raise
             self._stop_mocking(context)
             self._capture_exception(system_exit, sys.exc_info(),
                                     code, filename)
